@@ -966,6 +966,35 @@ func (v *View) Resolve(op Op) *TxMeta {
 			}
 		}
 		typ, data = transaction.TypeRemoveLimitOrder, transaction.RemoveLimitOrderData{ID: id}
+	case "remdust":
+		// the owner cancels its smallest order that sells the base coin, paying the fee in the pool's other
+		// coin: the fee conversion runs through the order's own pool (and may consume the order itself)
+		var bestID uint64
+		var bestV *big.Int
+		var bestOwner types.Address
+		var other types.CoinID
+		for _, p := range v.S.Pools {
+			if p.Coin0 != 0 {
+				continue
+			}
+			for _, o := range p.Orders {
+				if o.IsSale {
+					continue
+				}
+				if vol := bi(o.Volume0); bestV == nil || vol.Cmp(bestV) < 0 {
+					bestID, bestV, bestOwner, other = o.ID, vol, o.Owner, types.CoinID(p.Coin1)
+				}
+			}
+		}
+		if bestV != nil {
+			asAddr(bestOwner, 0)
+			if op.x(1)%4 != 0 {
+				forceGas = other
+			}
+		} else {
+			bestID = uint64(mod(op.x(0), 1<<20))
+		}
+		typ, data = transaction.TypeRemoveLimitOrder, transaction.RemoveLimitOrderData{ID: uint32(bestID)}
 	case "lockstake":
 		typ, data = transaction.TypeLockStake, transaction.LockStakeData{}
 	case "lock":
